@@ -166,6 +166,34 @@ def run(ctx):
         # 2. rule extraction
         ns = list(range(1, 13)) + [50, 100] + ([200, 300] if thorough else [])
         intervals = [(-1.0, 1.0), (0.0, 2.5), (3.0, -1.0), (-1e-3, 2e-3), (10.0, 250.0), (-7.0, -6.5)]
+        # tiny intervals and intervals that are short relative to where they lie (|xu - xl| << |xu|): still intervals, not "empty".
+        # There the nodes cannot be recovered from the call log to full relative accuracy (x = mid + half*xi cancels), so the
+        # extracted rule is compared with numpy's Gauss-Legendre rule mapped to the interval instead of through orthogonality
+        short_intervals = [(0.0, 5e-9), (-2e-7, 3e-7), (1000.0, 1000.004), (1.0 - 4e-6, 1.0), (-250.0, -250.0005), (5e-9, 0.0)]
+        for nq in (1, 2, 3, 5, 8, 100):
+            import numpy as np
+            tg_, wg_ = np.polynomial.legendre.leggauss(nq)
+            for (lo, hi) in short_intervals:
+                for rep in ("number", "tensor"):
+                    n += 1
+                    ctx.case(key=("rule-short", nq, lo, hi, rep))
+                    why = None
+                    try:
+                        calls, out = extract_rule(nq, torch.tensor(lo, dtype=DT) if rep == "tensor" else lo, torch.tensor(hi, dtype=DT) if rep == "tensor" else hi)
+                        w = out[1:].detach().numpy()
+                        x = np.array(calls[1:])
+                        half, mid = 0.5 * (hi - lo), 0.5 * (hi + lo)
+                        if len(calls) != nq + 1:
+                            why = "%d evaluations for an %d-point rule" % (len(calls) - 1, nq)
+                        elif not np.allclose(np.sort(w / half), np.sort(wg_), rtol=1e-11, atol=1e-13):
+                            why = "weights / half-width %s are not the Gauss-Legendre weights %s (sum of weights %.6e, interval length %.6e)" % (
+                                np.sort(w / half)[:3].tolist(), np.sort(wg_)[:3].tolist(), float(w.sum()), hi - lo)
+                        elif not np.allclose(np.sort(x), np.sort(mid + half * tg_), rtol=4e-16, atol=4e-16 * max(abs(lo), abs(hi))):
+                            why = "nodes are not the Gauss-Legendre nodes mapped to the interval"
+                    except Exception as e:
+                        why = "raised %s: %s" % (type(e).__name__, str(e)[:100])
+                    if why:
+                        ctx.violation("quad/rule-short/n=%d" % nq, "quad(n=%d) on the short interval [%r, %r] (limits as %ss): %s" % (nq, lo, hi, rep, why), {"n": nq, "interval": [lo, hi]})
         for nq in ns:
             for (lo, hi) in intervals:
                 # representations of the limits: python numbers, 0-dimensional and one-element tensors of the integrand's or of
